@@ -569,7 +569,10 @@ func (gen *Generator) GenerateInclude(args []Sexp) error {
 		case *SexpPair:
 			expr := item
 			for expr != SexpNull {
-				list := expr.(*SexpPair)
+				list, isPair := expr.(*SexpPair)
+				if !isPair {
+					return fmt.Errorf("include: Expected a proper list of file names, but the list ends in %T val %v", expr, expr.SexpString(nil))
+				}
 				if err := sourceItem(list.Head); err != nil {
 					return err
 				}
